@@ -45,6 +45,8 @@ type Tree struct {
 	stale     *staleCtxInfo
 	shv       *shortHeavyInfo
 
+	rbf bool // flip tree used for the failing-rollback scenario
+
 	// forceTime, if non-zero, is the timestamp of the next mined header
 	// (valid or not); reset by mine
 	forceTime int64
